@@ -421,6 +421,8 @@ class Parallel:
                         for in_thread_result in in_thread_results
                         for result in self._run_callbacks(in_thread_result)
                     ]
+                    # the time spent by the consumer and the callbacks is not time spent waiting for a task
+                    last_task_ts = time.monotonic()
 
                 if pool_is_empty and queue_empty:
                     break
